@@ -169,6 +169,7 @@ func main() {
 		}(i)
 	}
 	wg.Wait()
+	sym.ProfileDump()
 	enc, _ := json.MarshalIndent(results, "", " ")
 	if *out == "" {
 		os.Stdout.Write(enc)
